@@ -539,6 +539,19 @@ pub fn write_key_file(
     Some(out)
 }
 
+/// As write_key_file, with the static public key SENT in the handshake given explicitly (e.g. the bit-255 twin encoding of
+/// the sender's key: the same curve point in other bytes).
+pub fn write_key_file_with_sender_pub(s_priv: &[u8; 32], s_pub_sent: &[u8; 32], r_pub: &[u8; 32], e_priv: &[u8; 32], payload_key: &[u8; 32], pt: &[u8], chunking: &[usize]) -> Option<Vec<u8>> {
+    let mut roles = XRoles::honest(&KEY_MAGIC, s_priv, r_pub, e_priv);
+    roles.s_pub = *s_pub_sent;
+    let m = noise_x_write(&roles, payload_key)?;
+    let fk = file_key_from_handshake(payload_key, &m.h);
+    let mut out = KEY_MAGIC.to_vec();
+    out.extend_from_slice(&m.message);
+    out.extend_from_slice(&write_chunks(&fk, &[], pt, chunking));
+    Some(out)
+}
+
 pub const SCRYPT_N: u64 = 32768;
 pub const SCRYPT_R: u64 = 8;
 pub const SCRYPT_P: u64 = 1;
